@@ -585,6 +585,9 @@ class PoolSpec:
         prop = self.PROPERTY
 
         def on_end(kind, info):
+            if kind == "unsupported":
+                emit({"verdict": "harness-error", "message": "simulated environment lacks something the code asked for: "
+                      + str(info.get("exc"))})
             res = evaluate(prop, plan, obs, k, kind, info)
             res.update({
                 "digest": k.digest(), "signature": k.signature(), "steps": k.step, "switches": k.switches,
